@@ -220,7 +220,59 @@ func runCases(col *Collector, drv *Driver, cases []Case) {
 	wg.Wait()
 }
 
+// ---- watchdog: an implementation call that does not return, or that allocates without bound, must end the run with
+// a verdict (Go cannot interrupt a goroutine): the case is recorded as an oracle failure and the process exits.
+var (
+	wdMu      sync.Mutex
+	wdRunning = map[*Case]time.Time{}
+	wdFire    func(cs *Case, why string)
+)
+
+const (
+	wdCaseLimit = 60 * time.Second
+	wdHeapLimit = 14 << 30
+)
+
+func startWatchdog(fire func(cs *Case, why string)) {
+	wdFire = fire
+	go func() {
+		var ms runtime.MemStats
+		for tick := 0; ; tick++ {
+			time.Sleep(250 * time.Millisecond)
+			var oldest *Case
+			var since time.Time
+			wdMu.Lock()
+			for c, t := range wdRunning {
+				if oldest == nil || t.Before(since) {
+					oldest, since = c, t
+				}
+			}
+			wdMu.Unlock()
+			if oldest == nil {
+				continue
+			}
+			if time.Since(since) > wdCaseLimit {
+				wdFire(oldest, fmt.Sprintf("the implementation did not return within %s on this input", wdCaseLimit))
+			}
+			if tick%4 == 0 {
+				runtime.ReadMemStats(&ms)
+				if ms.HeapAlloc > wdHeapLimit {
+					wdFire(oldest, fmt.Sprintf("the process heap grew beyond %d GiB while the implementation was working on this input (longest-running case)", wdHeapLimit>>30))
+				}
+			}
+		}
+	}()
+}
+
 func safeRun(cs *Case, resp map[string]string) (o Outcome) {
+	wdMu.Lock()
+	wdRunning[cs] = time.Now()
+	wdMu.Unlock()
+	defer func() {
+		wdMu.Lock()
+		delete(wdRunning, cs)
+		wdMu.Unlock()
+	}()
 	defer func() {
 		if r := recover(); r != nil {
 			o = Outcome{Impl: "harness-panic:" + fmt.Sprint(r), OracleOK: false, Note: "harness panic (a bug in the harness or an unrecovered panic in the implementation)"}
@@ -313,6 +365,15 @@ func main() {
 		fmt.Printf("raceonly: %d scenarios executed under the race detector\n", col.evaluations)
 		return
 	}
+	var fired sync.Once
+	startWatchdog(func(cs *Case, why string) {
+		fired.Do(func() {
+			col.mu.Lock()
+			col.oracleFail = append(col.oracleFail, Failure{Line: cs.Line, Impl: "runaway", Note: why, Key: "runaway"})
+			col.mu.Unlock()
+			os.Exit(verdict(p, col, proof, *tier, seed, time.Since(start).Seconds()))
+		})
+	})
 	// race reports collected by ./check from the -race build (thorough tier)
 	addRaceReports(p, col)
 	// corpus first (minimised past failures), then generated cases
